@@ -18,6 +18,7 @@ type SpecCtx struct {
 	old  *State
 	vars map[string]Value
 	pkg  *types.Package
+	now  *State  // inside old(): the state old() was entered from (for now(e))
 	rec  *recDef // non-nil while translating the body of a recursive spec function
 	guard string // condition under which the sub-expression being evaluated matters
 }
@@ -598,7 +599,13 @@ func (c *SpecCtx) quant(x *SExpr) Value {
 			}
 			ps = append(ps, e.flatten(inner.eval(t))...)
 		}
-		pats = append(pats, ":pattern ("+strings.Join(ps, " ")+")")
+		var pp []string
+		for _, p := range ps {
+			pp = append(pp, patternTerms(p)...)
+		}
+		if len(pp) > 0 {
+			pats = append(pats, ":pattern ("+strings.Join(pp, " ")+")")
+		}
 	}
 	e.quantDepth--
 	g := mkAnd(guards...)
@@ -621,7 +628,19 @@ func (c *SpecCtx) call(x *SExpr) Value {
 		if c.old == nil {
 			specFail("old() outside a two-state context")
 		}
-		return c.inState(c.old).eval(x.Args[0])
+		oc := c.inState(c.old)
+		if c.now == nil {
+			oc.now = c.st
+		}
+		return oc.eval(x.Args[0])
+	case "now":
+		// now(e) inside old(...): e is evaluated in the current state (e.g. the key of an old map)
+		if c.now == nil {
+			return c.eval(x.Args[0])
+		}
+		nc := c.inState(c.now)
+		nc.now = nil
+		return nc.eval(x.Args[0])
 	case "len", "cap":
 		v := c.eval(x.Args[0])
 		switch s := v.(type) {
